@@ -21,11 +21,26 @@ check('C07', 'E1-hubsim',
       'deterministic simulation: seeded hub scheduler + fault injection (listener death, exception exits, GC points) + trace-validation oracle',
       'DESIGN.md section 7 C07')
 
+check('C06', 'E2-world',
+      'Seeded search over collection/group/command histories with delay windows, rejected calls and crash-restart on the real '
+      'objects; a structural invariant (exactly one GroupedSubset per group per dataset, shared state/label/style, no membership '
+      'left on removed datasets or groups) is evaluated after every quiescent step. Sampling of histories, not proof.',
+      'Invariant is evaluated only when no delay window is open; histories up to 80 operations; datasets up to 3-d with <= 24 elements.',
+      'deterministic simulation: seeded history scheduler + fault injection (delay windows, exception exits, rejected calls, crash-restart) + structural invariant',
+      'DESIGN.md section 7 C06')
+check('C13', 'E2-world',
+      'Seeded search over do/undo/redo interleavings of the real command classes through Application.do/undo/redo (also > 50 commands '
+      'and across restarts); the harness keeps a stack of user-visible snapshots and requires undo/redo to reproduce them. Sampling, not proof.',
+      'Operations outside the command stack run only on an empty history (the statement quantifies over command sequences); commands whose do() raises are not generated.',
+      'deterministic simulation: seeded command-history scheduler + crash-restart + snapshot-stack reference model',
+      'DESIGN.md section 7 C13')
+
+
 def na(pid, reason):
     NA[pid] = dict(property_id=pid, reason=reason)
 
 PENDING = 'check under construction in this build round (see DESIGN.md section 7); not claimed until its oracle is proven sound on the unchanged tree'
-for pid in ['C01', 'C02', 'C03', 'C04', 'C05', 'C06', 'C11', 'C12', 'C13', 'C14', 'C16', 'C17', 'C18', 'C19']:
+for pid in ['C01', 'C02', 'C03', 'C04', 'C05', 'C11', 'C12', 'C14', 'C16', 'C17', 'C18', 'C19']:
     na(pid, PENDING)
 na('C08', 'pure function of region parameters and points: no schedule, clock, fault, shared state or history for a simulator to vary (DESIGN.md section 8)')
 na('C09', 'pure translation roi -> subset state; nothing stateful or faulty involved (DESIGN.md section 8)')
